@@ -4,6 +4,9 @@
   Core-only imports (no Mathlib) so that it links as a `lean_exe`.
 -/
 import RdfModel.Driver.NQ
+import RdfModel.Driver.Description
+import RdfModel.Driver.Dataset
+import RdfModel.Driver.Prefix
 open RdfModel
 
 def dispatch (line : String) : String :=
@@ -14,6 +17,9 @@ def dispatch (line : String) : String :=
     | [comp, op] =>
       let r : Option String :=
         if comp = "nq" then Driver.NQ.handle op args
+        else if comp = "ds" then Driver.Dataset.handle op args
+        else if comp = "desc" then Driver.Description.handle op args
+        else if comp = "pm" then Driver.Prefix.handle op args
         else none
       r.getD "bad-op"
     | _ => "bad-op"
